@@ -148,6 +148,113 @@ def deep_filters(ctx: t.Any) -> None:
                 ctx.violation("deep-filter-differs", f"search request with a {shape} filter nested {depth} deep does not survive pack / unpack", case)
 
 
+ENCODINGS = ("latin-1", "utf-16-le", "utf-16", "utf-32-be", "cp1252", "ascii")
+
+
+def encodings_family(ctx: t.Any) -> None:
+    """PackingOptions with another string_encoding (every options object set to it, as a session does for utf-8):
+    every dev(1) message of U whose text the encoding can express is round-tripped with those options."""
+    import sansldap as L
+
+    PackingOptions = A.lib("PackingOptions")
+    ks = U.kinds()
+    for enc in ENCODINGS:
+        o = PackingOptions(string_encoding=enc, authentication=L.AuthenticationOptions(string_encoding=enc), control=L.ControlOptions(string_encoding=enc), filter=L.FilterOptions(string_encoding=enc))
+        for job in U.jobs(ks, 1):
+            for m, _paths in U.enumerate_job(ks, job):
+                try:
+                    data = m.pack(o)
+                except UnicodeEncodeError:
+                    continue  # the text is outside what this encoding can express
+                except BaseException as e:  # noqa: BLE001
+                    ctx.violation(f"encoding:pack-raises:{type(e).__name__}", f"string_encoding={enc}: pack raised {type(e).__name__}: {e}", {"order": "encodings", "msg": A.src(m), "encoding": enc})
+                    continue
+                ctx.add("states")
+                ctx.add("transitions", 3)
+                try:
+                    m2, rest = K.unpack(data, o)
+                    why = K.messages_equal(m, m2, o)
+                    if why is None and rest != b"":
+                        why = "bytes left over"
+                    if why is None and m2.pack(o) != data:
+                        why = "re-encoding differs"
+                except BaseException as e:  # noqa: BLE001
+                    why = f"{type(e).__name__}: {str(e)[:80]}"
+                if why:
+                    ctx.violation(f"encoding:{type(m).__name__}:{K.strip_idx(why)[:60]}", f"string_encoding={enc}: {why}", {"order": "encodings", "msg": A.src(m), "encoding": enc})
+        ctx.distinct.add(("encoding", enc))
+
+
+_OID = __import__("re").compile(r"[0-2](\.(0|[1-9][0-9]*))+\Z")
+
+
+def control_types_family(ctx: t.Any) -> None:
+    """Control types at the edges: the empty string and a non-OID as type of a generic control; the OID of every control
+    class the library knows (read from ControlOptions, so a newly added known control is covered) carried by a generic
+    control with no value / an empty value / other octets / the class's own value.  A generic control must come back as
+    sent; a known one comes back as its class, exposing the octets that were sent, and re-encodes to the same bytes."""
+    import sansldap as L
+
+    res = L.LDAPResult(L.LDAPResultCode.SUCCESS, "", "", None)
+    choices = list(L.ControlOptions().choices)
+    known = {c.control_type: c for c in choices if isinstance(getattr(c, "control_type", None), str) and _OID.match(c.control_type)}
+    types = ["", "not-an-oid", "1", "1.2.840.113556.1.4", "1.2.840.113556.1.4.417.1", "2.16.840.1.113730.3.4.2", "1.2.840.113556.1.4.805"] + sorted(known)
+    for ct in types:
+        own = []
+        if ct in known:
+            for inst in _instances(known[ct]):
+                try:
+                    own.append(inst.get_value(K.OPTS.control))
+                except BaseException:  # noqa: BLE001, S112
+                    continue
+        for crit in (False, True):
+            for v in [None, b"", b"zz", b"\x30\x00"] + [x for x in own if x is not None]:
+                for wrap in (lambda c: L.SearchResultDone(3, [c], res), lambda c: L.SearchRequest(4, [L.LDAPControl("1.2", False, None), c], "", L.SearchScope.BASE, L.DereferencingPolicy.NEVER, 0, 0, False, L.FilterPresent("a"), [])):
+                    sent = L.LDAPControl(ct, crit, v)
+                    m = wrap(sent)
+                    ctx.add("states")
+                    ctx.add("transitions", 3)
+                    case = {"order": "control-types", "msg": A.src(m)}
+                    data = m.pack(K.OPTS)
+                    try:
+                        m2, rest = K.unpack(data)
+                    except ValueError:
+                        if ct in known and v not in own:
+                            continue  # octets that are not a value of that known type: refusing them is the decoder's right (C05)
+                        ctx.violation(f"control-type:decode-raises:{'known' if ct in known else 'generic'}", f"control type {ct!r} value {v!r}: decode raised", case)
+                        continue
+                    except BaseException as e:  # noqa: BLE001
+                        ctx.violation(f"control-type:decode-raises:{type(e).__name__}", f"control type {ct!r} value {v!r}: {type(e).__name__}: {e}", case)
+                        continue
+                    got = m2.controls[-1]
+                    if rest != b"" or m2.pack(K.OPTS) != data:
+                        ctx.violation(f"control-type:repack-differs:{'known' if ct in known else 'generic'}", f"control type {ct!r} value {v!r} decodes to {A.src(got)[:100]}, which re-encodes differently", case)
+                    elif ct not in known and (type(got) is not L.LDAPControl or got != sent):
+                        ctx.violation("control-type:generic-control-altered", f"generic control {A.src(sent)} decodes to {A.src(got)[:120]}", case)
+                    elif ct in known and (got.control_type != ct or got.critical is not crit or getattr(got, "value", v) != v):
+                        ctx.violation("control-type:known-control-altered", f"control {A.src(sent)} of known type decodes to {A.src(got)[:120]}", case)
+        ctx.distinct.add(("control-type", ct))
+
+
+def _instances(cls: t.Any) -> t.List[t.Any]:
+    """A few instances of a known control class, built from its dataclass fields with simple values."""
+    import dataclasses
+
+    out = []
+    for ival, bval in ((0, b""), (7, b"cookie")):
+        kw: t.Dict[str, t.Any] = {}
+        try:
+            for f in dataclasses.fields(cls):
+                if not f.init or f.name in ("control_type",):
+                    continue
+                kw[f.name] = True if f.type in ("bool", bool) else ival if f.type in ("int", int) else bval if "bytes" in str(f.type) else None
+            kw.pop("value", None)
+            out.append(cls(**kw))
+        except BaseException:  # noqa: BLE001, S112
+            continue
+    return out
+
+
 def run(ctx: evid.Ctx) -> None:
     thorough = ctx.tier == "thorough"
     d = 3 if thorough else 2
@@ -164,6 +271,8 @@ def run(ctx: evid.Ctx) -> None:
             ctx.violation(r[0], r[1], {"msg": A.src(m) if len(A.src(m)) < 2000 else None, "big": type(m).__name__})
     options_history(ctx)
     deep_filters(ctx)
+    encodings_family(ctx)
+    control_types_family(ctx)
     jobs = U.jobs(ks, d)
     jobs.sort(key=lambda j: -U.job_size(ks, j))
     for loc in par.pmap(_work, jobs, ctx.seed):
@@ -177,7 +286,7 @@ def run(ctx: evid.Ctx) -> None:
     ctx.bounds = {"deviations": d, "suffixes": [s.hex() for s in _STATE["suffixes"]], "kinds": [k.name for k in ks],
                   "domain_sizes": {k.name: {f.path: [len(f.dom), len(f.xdom)] for f in k.fields} for k in ks}}  # fmt: skip
     ctx.assumptions = [
-        "string_encoding utf-8 (the session default); strings without lone surrogates",
+        "string_encoding utf-8 (the session default) for U; dev(1) of U again under latin-1, utf-16-le, utf-16, utf-32-be, cp1252 and ascii where the text is expressible; strings without lone surrogates",
         "a generic LDAPControl never carries a library-known OID (it decodes as the known class by design)",
         "filter and controls fields use a reduced crossing domain when deviating together with other fields",
         "filters nested up to 450 levels; deeper ones exceed the interpreter's recursion limit in the decoder (reported as ProtocolError by receive, see C05): resource exhaustion, not covered",
@@ -189,6 +298,8 @@ def replay(case: t.Dict[str, t.Any], key: t.Optional[str] = None) -> t.Tuple[boo
         c = evid.Ctx("C01", "quick", 0)
         options_history(c)
         deep_filters(c)
+        encodings_family(c)
+        control_types_family(c)
         for m in U.big_messages():
             r = check_one(m, SUFFIXES_QUICK)
             if r:
